@@ -244,3 +244,22 @@ Definition min_fields (flex : bool) : list ty -> N :=
 Lemma min_size_struct_eq flex fields tagged :
   min_size flex (TStruct fields tagged) = (min_fields flex fields + (if flex then 1 else 0))%N.
 Proof. reflexivity. Qed.
+
+Definition marker_loop (c : cfg) : list N -> Z -> dstate -> res value :=
+  fix loop (fuel : list N) (n : Z) (s : dstate) {struct fuel} : res value :=
+    if (n <=? 0)%Z then Ok VUnit s
+    else match fuel with
+         | [] => OutOfFuel
+         | _ :: fuel' =>
+           match skip_header_tags_step c s with
+           | Ok _ s' => loop fuel' (n - 1)%Z s'
+           | Err e ra al => Err e ra al
+           | Panic => Panic | Oom => Oom | OutOfFuel => OutOfFuel
+           end
+         end.
+
+Lemma decode_marker_eq c flex s :
+  decode c flex TMarker s =
+  if negb flex then Ok VUnit s
+  else bind (read_uvarint s) (fun cnt s => marker_loop c (0%N :: 0%N :: s.(d_in)) (int_of_u64 cnt) s).
+Proof. reflexivity. Qed.
